@@ -159,6 +159,15 @@ impl<'a, P: ?Sized + PathImpl> PathMutImpl<'a, P> {
 				b""
 			};
 
+			// A `.` segment that was only there to shield the removed
+			// segment (empty or containing a `:`) goes away with it.
+			let shielded = self.buffer[i] == b'/'
+				&& &self.buffer[start..i] == CURRENT_SEGMENT
+				&& (i + 1 == self.end || self.buffer[(i + 1)..self.end].contains(&b':'));
+			if shielded {
+				i = start;
+			}
+
 			replace(self.buffer, i..self.end, rest);
 			self.end = i + rest.len();
 			true
